@@ -322,6 +322,25 @@ static void h_new_off(Ctx& c, const Op& op, int idx, OpResult& r) {
   { Scope sc(idx); o->off = new ClipperOffset(o->miter, o->arc, o->pc, o->rs); }
   o->type = T_OFF;
 }
+// copy construction (i[0] == 0, destination slot empty) or copy assignment (i[0] == 1, destination of the same type) of the
+// copyable library objects: ClipperOffset, RectClip64, RectClipLines64. The copy carries the logical state of its source.
+static void h_copy(Ctx& c, const Op& op, int idx, OpResult& r) {
+  Obj* s = c.get(op.o); Obj* d = c.get(op.o2);
+  if (!s || !d || s == d || op.o >= 100 || op.o2 >= 100 || s->poisoned) SKIP(r);
+  if (s->type != T_OFF && s->type != T_RC && s->type != T_RCL) SKIP(r);
+  bool assign = ai(op, 0) == 1 && s->type == T_OFF;      // the rectangle clippers have const members: copy construction only
+  if (assign ? (d->type != s->type || d->poisoned) : (d->type != T_NONE)) SKIP(r);
+  if (assign) {
+    { Scope sc(idx); *d->off = *s->off; }
+    ClipperOffset* po = d->off; RectClip64* pr = d->rc; RectClipLines64* pl = d->rcl; int ne = d->n_exec, nc = d->n_clear;
+    *d = *s; d->off = po; d->rc = pr; d->rcl = pl; d->n_exec += ne; d->n_clear += nc; d->hist += 'k';
+    return;
+  }
+  Obj n = *s; n.off = nullptr; n.rc = nullptr; n.rcl = nullptr;
+  { Scope sc(idx); if (s->type == T_OFF) n.off = new ClipperOffset(*s->off); else if (s->type == T_RC) n.rc = new RectClip64(*s->rc); else n.rcl = new RectClipLines64(*s->rcl); }
+  n.hist += 'k';
+  *d = n;
+}
 static Rect64 rect_of(const Op& op) { return Rect64(ai(op, 0), ai(op, 1), ai(op, 2), ai(op, 3)); }
 static void h_new_rc(Ctx& c, const Op& op, int idx, OpResult& r) {
   Obj* o = c.get(op.o); if (!o || o->type != T_NONE) SKIP(r);
@@ -343,7 +362,7 @@ static void h_new_cont(Ctx& c, const Op& op, int idx, OpResult& r) {
 }
 static void h_del(Ctx& c, const Op& op, int idx, OpResult& r) {
   Obj* o = c.get(op.o); if (!o || o->type == T_NONE) SKIP(r);
-  if (op.o >= 100 && c.task != -1) SKIP(r);                   // shared objects belong to the set-up thread
+  if (op.o == 100 && c.task != -1) SKIP(r);                   // the shared container belongs to the set-up thread (slots 101..107: objects the set-up thread prepared and handed over to exactly one task)
   if (o->type == T_CONT && o->users > 0) SKIP(r);           // API contract: the container owns the vertices
   if (o->type == T_C64 || o->type == T_CD) release_conts(c, *o);
   destroy_obj(*o, idx);
@@ -421,7 +440,7 @@ static void h_c_defz(Ctx& c, const Op& op, int idx, OpResult& r) {
 }
 static void h_c_clear(Ctx& c, const Op& op, int idx, OpResult& r) {
   Obj* o = c.get(op.o); if (!o) SKIP(r);
-  if (op.o >= 100 && c.task != -1) SKIP(r);
+  if (op.o == 100 && c.task != -1) SKIP(r);
   if (o->type == T_C64) { Scope sc(idx); o->c64->Clear(); }
   else if (o->type == T_CD) { Scope sc(idx); o->cd->Clear(); }
   else if (o->type == T_OFF) { { Scope sc(idx); o->off->Clear(); } o->groups.clear(); o->poisoned = false; { ++o->n_clear; o->hist += 'C'; } return; }
@@ -508,7 +527,7 @@ static void h_c_exec(Ctx& c, const Op& op, int idx, OpResult& r) {
 // ---- container
 static void h_k_add(Ctx& c, const Op& op, int idx, OpResult& r) {
   Obj* o = c.get(op.o); if (!o || o->type != T_CONT || !op.hasP[0]) SKIP(r);
-  if (op.o >= 100 && c.task != -1) SKIP(r);
+  if (op.o == 100 && c.task != -1) SKIP(r);
   int type = (int)(ai(op, 0) & 1); bool open = ai(op, 1) != 0;
   if (type == 1 && open) open = false;                           // open clip paths are not part of the API
   Batch b; b.p = to64(op.P[0]); b.kind = type == 1 ? 2 : (open ? 1 : 0);
@@ -916,7 +935,7 @@ static const OpDef OPS[] = {
   {"new_c64", h_new_c64}, {"new_cd", h_new_cd}, {"new_off", h_new_off}, {"new_rc", h_new_rc}, {"new_rcl", h_new_rcl}, {"new_cont", h_new_cont}, {"del", h_del},
   {"c_add", h_c_add}, {"c_reuse", h_c_reuse}, {"pc", h_c_pc}, {"rs", h_c_rs}, {"setz", h_c_setz}, {"defz", h_c_defz}, {"clear", h_c_clear}, {"c_exec", h_c_exec},
   {"k_add", h_k_add},
-  {"f_addpath", h_f_addpath}, {"f_addpaths", h_f_addpaths}, {"f_miter", h_f_miter}, {"f_arc", h_f_arc}, {"f_setdcb", h_f_setdcb}, {"f_exec", h_f_exec}, {"f_execcb", h_f_execcb},
+  {"f_addpath", h_f_addpath}, {"f_addpaths", h_f_addpaths}, {"f_miter", h_f_miter}, {"f_arc", h_f_arc}, {"f_setdcb", h_f_setdcb}, {"f_exec", h_f_exec}, {"f_execcb", h_f_execcb}, {"copy", h_copy},
   {"r_exec", h_r_exec},
   {"boolop64", h_boolop64}, {"booltree64", h_booltree64}, {"boolopD", h_boolopD}, {"booltreeD", h_booltreeD}, {"named64", h_named64}, {"namedD", h_namedD},
   {"inflate64", h_inflate64}, {"inflateD", h_inflateD}, {"rectclip64", h_rectclip64}, {"rectclipD", h_rectclipD}, {"mink64", h_mink64}, {"minkD", h_minkD},
